@@ -137,7 +137,22 @@ func c11SeqA(t *testing.T, rep *vfReport, r *vfRng, n int) (ops, out []string) {
 	aux, hold := 0, false
 	for i := 0; i < n; i++ {
 		clk += 10
-		switch k := r.Intn(16); {
+		switch k := r.Intn(17); {
+		case k == 16: // Open of an id that does not exist: must fail and must give the read lock back
+			before := c11NR(s)
+			_, rc, err := s.Open("9-9999-1700000000000")
+			switch {
+			case err == nil:
+				rc.Close()
+				t.Fatalf("open of a non-existent snapshot succeeded")
+			case strings.Contains(err.Error(), "acquiring read lock"):
+				emit("openfail", "conflict")
+			default:
+				emit("openfail", "error")
+			}
+			if after := c11NR(s); after != before {
+				rep.Fail("failed-open-keeps-read-lock", fmt.Sprintf("reader count %d -> %d across a failed Open (%v)", before, after, err), replay())
+			}
 		case k < 3: // open
 			timeout := int64(0)
 			if r.Chance(60) {
@@ -323,7 +338,7 @@ func c11ReadClass(timedOut bool) string {
 }
 
 func TestVerifC11(t *testing.T) {
-	rep := vfNewReport("C11", "A: sequential op sequences (30-120 ops) on a real snapshot store with a full and an incremental snapshot: open (idle timeout 0 or 1 h), read, Close, repeated Close, idle callback with expired / fresh last-read time, short readers, Store.Reap, held write lock; non-trivial when a forced close, a repeated Close and a refused Reap all occurred; B: 3-6 reader goroutines x 4-10 streams each (4 ms idle timeout, stalls, double and concurrent Close) against a reaper adding 3 incrementals and reaping through Reap() and the blocking reapLoop")
+	rep := vfNewReport("C11", "A: sequential op sequences (30-120 ops) on a real snapshot store with a full and an incremental snapshot: open (idle timeout 0 or 1 h), read, Close, repeated Close, idle callback with expired / fresh last-read time, short readers, failing Open, Store.Reap, held write lock; non-trivial when a forced close, a repeated Close and a refused Reap all occurred; B: 3-6 reader goroutines x 4-10 streams each (4 ms idle timeout, stalls, double and concurrent Close) against a reaper adding 3 incrementals and reaping through Reap() and the blocking reapLoop; C: real 25-55 ms idle timers with one read before the stall")
 	// if the process dies (e.g. the \"reader count went negative\" panic in a timer goroutine) this report stays
 	rep.Fail("process-crashed-during-run", "the test process ended before the run finished (panic in a non-test goroutine?)", nil)
 	rep.Write()
@@ -339,7 +354,7 @@ func TestVerifC11(t *testing.T) {
 	}()
 	r := vfNewRng(11)
 	var allOps, allImpl [][]string
-	nA := vfScale(120, 7000)
+	nA := vfScale(70, 7000)
 	for i := 0; i < nA; i++ {
 		ops, out := c11SeqA(t, rep, r, 30+r.Intn(vfScale(91, 200)))
 		allOps = append(allOps, ops)
@@ -538,6 +553,82 @@ func TestVerifC11(t *testing.T) {
 		rep.CountN("B:streams-force-closed", int(forced.Load()))
 		rep.CountN("B:reaps-observed", int(reaps.Load()))
 		rep.CountN("B:explicit-reaps-succeeded", int(explicitReaps.Load()))
+	}
+	// ---- C: real idle timers ------------------------------------------------------------
+	// a consumer reads once some time after opening (so the first timer firing finds the
+	// stream not yet idle long enough and must re-arm), then stalls: the stream must be
+	// force-closed, not before lastRead+timeout, and the reaper must then get the lock.
+	{
+		nC := vfScale(6, 60)
+		var wg sync.WaitGroup
+		for i := 0; i < nC; i++ {
+			timeout := time.Duration(25+r.Intn(30)) * time.Millisecond
+			readAfter := time.Duration(5+r.Intn(15)) * time.Millisecond
+			wg.Add(1)
+			go func(i int) {
+				defer wg.Done()
+				s := c11NewStore(t)
+				defer s.Close()
+				s.SetReadTimeout(timeout)
+				_, rc, err := s.Open(c11Newest(s))
+				if err != nil {
+					t.Errorf("open: %v", err)
+					return
+				}
+				l := rc.(*LockingStreamer)
+				start := time.Now()
+				time.Sleep(readAfter)
+				tRead := time.Since(start) // measured BEFORE the read: the recorded last-read time is not earlier
+				n, rerr := rc.Read(make([]byte, 16))
+				replay := map[string]interface{}{"timeout_ns": int64(timeout), "read_after_ns": int64(readAfter), "run": i}
+				if rerr != nil || n == 0 {
+					// the machine was so slow that the stream idled out before our read: nothing to judge
+					rep.Count("C:inconclusive-slow-machine")
+					rc.Close()
+					return
+				}
+				forced := false
+				var tObs time.Duration
+				for dl := time.Now().Add(20 * time.Second); time.Now().Before(dl); time.Sleep(500 * time.Microsecond) {
+					if l.closed.Is() {
+						forced, tObs = true, time.Since(start)
+						break
+					}
+				}
+				if !forced {
+					rep.Fail("stalled-stream-never-force-closed", fmt.Sprintf("idle timeout %v, last read at %v: still open after 20 s", timeout, tRead), replay)
+					rc.Close()
+					return
+				}
+				if tObs < tRead+timeout {
+					rep.Fail("stream-force-closed-before-idle-timeout", fmt.Sprintf("idle timeout %v, last read not before %v, closed already at %v", timeout, tRead, tObs), replay)
+				}
+				if !l.timedOut.Is() {
+					rep.Fail("force-closed-stream-not-marked-timed-out", "", replay)
+				}
+				// the reaper can proceed now (the release happens right after the flag is set)
+				ok := false
+				for dl := time.Now().Add(10 * time.Second); time.Now().Before(dl); time.Sleep(200 * time.Microsecond) {
+					if _, _, err := s.Reap(); err == nil {
+						ok = true
+						break
+					}
+				}
+				if !ok {
+					rep.Fail("reaper-blocked-after-forced-close", "Reap still refused 10 s after the stalled stream was force-closed", replay)
+				}
+				if _, err := rc.Read(make([]byte, 8)); !errors.Is(err, ErrSnapshotReaderTimeout) {
+					rep.Fail("read-after-forced-close-not-timeout-error", fmt.Sprint(err), replay)
+				}
+				rc.Close() // must be a no-op
+				if nr := c11NR(s); nr != 0 {
+					rep.Fail("reader-count-not-zero-after-all-closed", fmt.Sprint(nr), replay)
+				}
+				rep.Case(fmt.Sprintf("C:%d", i), true)
+				rep.Count("C:stalled-streams-force-closed")
+			}(i)
+		}
+		wg.Wait()
 	}
 	rep.vfCompareSegments("streamer", allOps, allImpl)
 }
